@@ -238,6 +238,64 @@ def _is_typeid_mask_guard(F, ifnode):
     return len(tys) == 2 and "bool" in tys and any(t.endswith("::Mask") or t.endswith("HasBoolMask>::Mask") for t in tys)
 
 
+def _lanes2(e, x):
+    """Value of a boolean expression over a two-lane mask `self` = (x[0], x[1]); None = not understood."""
+    k = e.get("k")
+    if k == "block" and not e.get("s") and e.get("e"):
+        return _lanes2(e["e"], x)
+    if k in ("paren", "dropt"):
+        return _lanes2(e["e"], x)
+    if k == "un" and e.get("op") == "!":
+        v = _lanes2(e["e"], x)
+        return None if v is None else (not v)
+    if k == "bin" and e.get("op") in ("&&", "||", "&", "|", "==", "!="):
+        a, b = _lanes2(e["a"][0], x), _lanes2(e["a"][1], x)
+        if a is None or b is None:
+            return None
+        return {"&&": a and b, "&": a and b, "||": a or b, "|": a or b, "==": a == b, "!=": a != b}[e["op"]]
+    if k == "lit" and e["lit"]["lk"] == "bool":
+        return bool(e["lit"]["v"])
+    if k == "mcall" and not e.get("a"):
+        r = e.get("r", {})
+        if r.get("k") == "path" and r.get("res", {}).get("n") == "self":
+            if e["n"] == "all":
+                return x[0] and x[1]
+            if e["n"] == "any":
+                return x[0] or x[1]
+            if e["n"] == "none":
+                return not (x[0] or x[1])
+    return None
+
+
+def check_reduction_definitions(F, rep):
+    """REDUCE: the one-lane abstraction of NUM-SIB cannot tell `none()` from `!all()`.  The two reductions of a SIMD mask are decided on a
+    two-lane model instead (4 lane patterns): is_true = every lane set, is_false = NO lane set (`[T]::is_within_bounds` stops early on
+    is_false, which is only sound if no lane can still be true)."""
+    n = 0
+    for im, ms in impl_methods(F, "bool_mask::BoolMask"):
+        if im["self_s"] not in WIDE:
+            continue
+        for m, want, text in (("is_true", lambda a, b: a and b, "all lanes set"), ("is_false", lambda a, b: not (a or b), "no lane set")):
+            b = ms.get(m)
+            if b is None:
+                rep.fail("REDUCE", "%s[%s]" % (m, im["self_s"]), "method missing")
+                continue
+            n += 1
+            bad = []
+            unknown = False
+            for x in ((False, False), (False, True), (True, False), (True, True)):
+                v = _lanes2(b["body"], x)
+                if v is None:
+                    unknown = True
+                    break
+                if v != want(*x):
+                    bad.append("lanes %s -> %s" % (list(x), v))
+            rep.ob("REDUCE", "%s[%s]" % (m, im["self_s"]), not unknown and not bad,
+                   "reduction not understood (expected all()/any()/none() of self combined with !, &&, ||)" if unknown else
+                   ("%s must mean `%s`: %s" % (m, text, "; ".join(bad)) if bad else "%s = %s on every lane pattern" % (m, text)), F.loc(b))
+    rep.floor("SIMD mask reductions", n, 8)
+
+
 def check_mask_reductions(F, rep):
     n = 0
     guarded = 0
@@ -674,6 +732,7 @@ def run(F, rep, tier="quick", extra=None, only=None):
     check_siblings(F, rep)
     check_deny(F, rep)
     check_mask_reductions(F, rep)
+    check_reduction_definitions(F, rep)
     check_lanes(F, rep, ns=(1, 2, 3) if tier == "thorough" else (2,))
     check_arms(F, rep, tier)
     n = check_scalar_semantics(F, rep, "std")
